@@ -174,7 +174,17 @@ func (t *decTr) stmt(s ast.Stmt) string {
 				return "DRange " + q(v.Name) + " " + q(t.render(x.X)) + " " + body
 			}
 		}
+	case *ast.DeferStmt:
+		// defer f(...): recorded where it is registered
+		return "DCall " + q("defer "+t.render(x.Call))
+	case *ast.SendStmt:
+		return "DCall " + q(t.render(x.Chan)+" <- "+t.render(x.Value))
+	case *ast.IncDecStmt:
+		return "DCall " + q(t.render(x.X)+x.Tok.String())
 	case *ast.ExprStmt:
+		if u, ok := x.X.(*ast.UnaryExpr); ok && u.Op == token.ARROW {
+			return "DCall " + q("<-"+t.render(u.X))
+		}
 		if c, ok := x.X.(*ast.CallExpr); ok {
 			f := t.render(c.Fun)
 			if strings.HasPrefix(f, "a.l.") || strings.HasPrefix(f, "c.l.") || strings.HasPrefix(f, "d.Logger.") || f == "verifYield" {
